@@ -101,6 +101,9 @@ def _m(p, n, env):
             return False
         return all(_m(a, b, env) for a, b in zip(p, n))
     if isinstance(p, ast.AST):
+        if isinstance(p, ast.Assign) and isinstance(n, ast.AnnAssign) and len(p.targets) == 1 and n.value is not None:
+            # an annotated assignment is an assignment
+            return _m(p.targets[0], n.target, env) and _m(p.value, n.value, env)
         if type(p) is not type(n):
             return False
         for fld in p._fields:
